@@ -52,7 +52,9 @@ class Facts:
         unit=None,
         taskvars: Iterable[str] = (),
         ignore_writes: Iterable[str] = (),
+        post: Callable[[Node, dict], None] | None = None,
     ):
+        self.post = post  # rule-supplied effect of a node on the facts (e.g. `await sig.wait()` establishes sig.is_set())
         self.ignore_writes = set(ignore_writes)  # attribute names whose writes never invalidate a tracked atom (stated by the rule)
         # names of module-level ContextVars: `NAME.get()` is task-local, so only an explicit write to NAME in this
         # task invalidates it (awaits and opaque callbacks do not: user handlers do not touch private bus state)
@@ -231,6 +233,12 @@ class Facts:
                 del env[a]
 
     def transfer(self, n: Node, env: dict) -> dict:
+        env = self._transfer(n, env)
+        if self.post is not None:
+            self.post(n, env)
+        return env
+
+    def _transfer(self, n: Node, env: dict) -> dict:
         st = n.ast
         if n.kind in ('stmt', 'return') and isinstance(st, ast.stmt):
             self._invalidate(st, env)
